@@ -13,6 +13,7 @@ import (
 	"golang.org/x/tools/go/ssa"
 
 	"verif/checker/esp"
+	"verif/checker/flow"
 	"verif/checker/layout"
 	"verif/checker/load"
 )
@@ -27,6 +28,7 @@ func init() {
 			"R3 refusal: every function with constant accesses to a []byte parameter has a length guard covering its largest bound (unexported functions: every call site passes a constant-width slice of sufficient width); narrowing integer conversions in writers are preceded by a range check of the source that returns an error. " +
 			"R4 stream codecs: for every type with a Marshal/Unmarshal (or MarshalToBytes/UnmarshalFromBytes) pair the ordered field sequences agree; fixed-size HOB writers return the sum of the static sizes of what they write. " +
 			"R5 read counts: every io.Reader.Read call in eventlog and ovmf/abi has its count compared with the requested length (or is io.ReadFull). " +
+			"R9 an encoder method (Marshal*, Put*, WriteTo, Bytes) of the codec packages never writes through its receiver. " +
 			"R8 a decoding helper that returns its result through a pointer-to-slice parameter assigns it before every successful return (no stale destination). " +
 			"R7 a stream encoder (function of eventlog / ovmf/abi taking a writer) never writes a prefix x[:k] of an encoded field unless len(x) == k was established on the path: an over-long value is refused, not truncated. " +
 			"R6 no slice in the codec packages is extended beyond its own length (bound computed upwards from len(x) or admitted by cap(x)): padding is appended, never uncovered from the backing array. R1 additionally treats copy(p[lo:hi], src) in a range-writer helper as filling the range only if the helper itself enforces len(src) == hi-lo. " +
@@ -510,6 +512,45 @@ func runC18(c *Ctx) {
 			}
 		}
 	}
+	// ---------------- R9 encoders do not write the value they encode ----------------
+	// A method of the codec packages that encodes its receiver (Marshal*, Put*, WriteTo, Bytes) performs no store,
+	// element assignment or copy whose destination is reached from the receiver: encoding a value twice gives the
+	// same bytes (an in-place byte swap through a slice that aliases a receiver field would corrupt the second
+	// encoding).
+	nEnc := 0
+	for _, f := range c.P.RepoFunctions() {
+		switch load.RelPkg(f) {
+		case "eventlog", "ovmf/abi", "sev":
+		default:
+			continue
+		}
+		if c.isTestFunc(f) || f.Signature.Recv() == nil || len(f.Params) == 0 {
+			continue
+		}
+		n := f.Name()
+		if !(strings.HasPrefix(n, "Marshal") || strings.HasPrefix(n, "Put") || n == "WriteTo" || n == "Bytes") {
+			continue
+		}
+		nEnc++
+		recv := f.Params[0]
+		clo := c.reachable([]*ssa.Function{f}, func(g *ssa.Function) bool { return load.FuncInRepo(g) })
+		delete(clo, nil)
+		eff := &flow.Effects{P: c.P, Funcs: clo, Roots: map[*ssa.Function]bool{f: true}}
+		badW := 0
+		for _, w := range eff.Writes() {
+			for _, rt := range w.Shared() {
+				if rt.V == ssa.Value(recv) {
+					badW++
+					c.S.Bad("R9", load.FuncName(f)+":writes its receiver", c.pos(w.Instr.Pos()), "the encoder writes "+w.What+" of the value it encodes: a second encoding of the same value produces different bytes")
+				}
+			}
+		}
+		if badW == 0 {
+			c.S.OK("R9", load.FuncName(f)+":receiver untouched", c.pos(f.Pos()), "no write reaches the receiver", false)
+		}
+	}
+	c.S.Floor("R9", "encoder methods in the codec packages", 8, nEnc)
+
 	// ---------------- R8 decoders assign their destination on every successful path ----------------
 	// A decoding helper of the codec packages that returns its result through a pointer-to-slice parameter stores
 	// through it before every nil-error return: an accepted encoding never leaves the destination's previous
